@@ -352,6 +352,39 @@ pub fn exec(op: &str, a: &[u64]) -> Result<Outcome, String> {
             o.check(status.code() == Some(0), "piped map of a processing function with an ordinary stack need is not the sequential map (worker threads died or the output differs)");
             Ok(o)
         }
+        "pipecpu" => {
+            // the pipe is created and iterated by a process that may use ONE CPU only (affinity mask, as in a pinned
+            // loader process or a one-CPU container): still the sequential map, for every worker count
+            let w = r.usize()?;
+            let n = r.usize()?;
+            r.end()?;
+            let exe = std::env::current_exe().map_err(|e| e.to_string())?;
+            let mut child = std::process::Command::new(exe)
+                .args(["cpu-child", &w.to_string(), &n.to_string()])
+                .stdout(std::process::Stdio::null())
+                .stderr(std::process::Stdio::null())
+                .spawn()
+                .map_err(|e| e.to_string())?;
+            let start = std::time::Instant::now();
+            let status = loop {
+                if let Some(s) = child.try_wait().map_err(|e| e.to_string())? {
+                    break Some(s);
+                }
+                if start.elapsed() > Duration::from_secs(120) {
+                    child.kill().ok();
+                    child.wait().ok();
+                    break None;
+                }
+                std::thread::sleep(Duration::from_millis(5));
+            };
+            if status.map(|s| s.code() == Some(9)).unwrap_or(false) {
+                return Err("the affinity mask could not be set in this environment".into());
+            }
+            let mut o = Outcome::new(format!("ok {n}"));
+            o.check(status.is_some(), "a pipe in a process restricted to one CPU never ends");
+            o.check(status.map(|s| s.code() == Some(0)).unwrap_or(true), "a pipe in a process restricted to one CPU is not the sequential map (items lost, or not processed exactly once)");
+            Ok(o)
+        }
         "pipemany" => {
             // `p` pipes of `w` workers each over long inputs are created, started and left idle (their workers block
             // in `send` or wait for their turn); a pipe created after them must still be the sequential map and end:
@@ -626,6 +659,34 @@ pub fn deep_child(w: usize, n: usize, kib: u64) -> ! {
     std::process::exit(if out == want { 0 } else { 7 })
 }
 
+extern "C" {
+    fn sched_setaffinity(pid: i32, cpusetsize: usize, mask: *const u64) -> i32;
+    fn sched_getaffinity(pid: i32, cpusetsize: usize, mask: *mut u64) -> i32;
+}
+
+/// child process of `pipecpu`: restricts itself to the first CPU it is allowed to use, then pipes
+pub fn cpu_child(w: usize, n: usize) -> ! {
+    let mut mask = [0u64; 16];
+    // SAFETY: plain libc calls on a properly sized, initialised buffer
+    let ok = unsafe { sched_getaffinity(0, std::mem::size_of_val(&mask), mask.as_mut_ptr()) } == 0;
+    let first = mask.iter().enumerate().find(|(_, m)| **m != 0).map(|(i, m)| (i, m.trailing_zeros()));
+    let Some((word, bit)) = first.filter(|_| ok) else { std::process::exit(9) };
+    let mut one = [0u64; 16];
+    one[word] = 1u64 << bit;
+    if unsafe { sched_setaffinity(0, std::mem::size_of_val(&one), one.as_ptr()) } != 0 {
+        std::process::exit(9);
+    }
+    let calls = Arc::new(AtomicUsize::new(0));
+    let c2 = calls.clone();
+    let fun: Arc<dyn Fn(u64) -> u64 + Send + Sync> = Arc::new(move |x| {
+        c2.fetch_add(1, Ordering::SeqCst);
+        f(x)
+    });
+    let out: Vec<u64> = (0..n as u64).pipe(fun, w as u8).collect();
+    let want: Vec<u64> = (0..n as u64).map(f).collect();
+    std::process::exit(if out == want && calls.load(Ordering::SeqCst) == n { 0 } else { 7 })
+}
+
 /// child process of `pipemany`
 pub fn many_child(p: usize, w: usize, n: usize) -> ! {
     let fun: Arc<dyn Fn(u64) -> u64 + Send + Sync> = Arc::new(f);
@@ -781,6 +842,13 @@ pub fn run_c05(ctx: &mut Ctx) {
         let many: &[(u64, u64)] = if ctx.thorough { &[(1, 300), (4, 300), (2, 1000)] } else { &[(2, 300)] };
         for &(w, n) in many {
             ctx.case("pipemany", &[(cpus + 4 + w - 1) / w + 1, w, n]);
+        }
+    }
+    // a process that may use one CPU only
+    if ctx.first_shard() {
+        let one: &[(u64, u64)] = if ctx.thorough { &[(0, 30), (1, 30), (2, 40), (3, 40), (8, 60)] } else { &[(1, 20), (3, 40)] };
+        for &(w, n) in one {
+            ctx.case("pipecpu", &[w, n]);
         }
     }
     // a processing function with a deep (but ordinary) stack need, in a child process
